@@ -93,7 +93,7 @@ cJsonEmpty == {MkJson(<<OE, O(<<"a">>, FALSE)>>, <<<<>>, g, <<>>>>) : g \in JGap
 cJsonThree == {MkJson(<<O(c, FALSE)>>, <<<<>>, <<>>>>) : c \in [1..3 -> Toks]}
 cJsonQuick == {p \in cJsonOne : p.total <= 13} \cup {p \in cJsonTwo : p.total <= 22 /\ p.id.gl[2] = 0} \cup {p \in cJsonEmpty : p.total <= 12}
               \cup {p \in cJsonThree : \E i \in 1..(p.total - 1) : p.chars[i] = "\\" /\ p.chars[i+1] = "\\"}
-cJsonHandler == {p \in cJsonTwo : p.total <= 20 /\ p.id.gl[2] = 1}
+cJsonHandler == {p \in cJsonTwo : p.total <= 20 /\ p.id.gl[2] = 1} \cup {p \in cJsonEmpty : p.total <= 12}
 JsonCuts(objs, gaps) == {MkJsonCut(objs, gaps, c) : c \in 1..(Len(gaps[1]) + Len(objs[1].chars) + Len(gaps[2]) + Len(objs[2].chars) + Len(gaps[3]))}
 cJsonCut == JsonCuts(<<O(<<"a">>, FALSE), O(<<"eb">>, FALSE)>>, <<<<>>, <<"\n">>, <<>>>>)
             \cup JsonCuts(<<O(<<"rb">>, TRUE), ON(<<"eq">>)>>, <<<<"\n">>, <<>>, <<"\n">>>>)
